@@ -63,11 +63,11 @@ func FBP(reftree *tree.Tree, boottrees <-chan tree.Trees, cpus int, sup *Support
 					seterr(treeV.Err)
 					return
 				} else {
-					if inerr = treeV.Tree.ReinitIndexes(); err != nil {
+					if inerr = treeV.Tree.ReinitIndexes(); inerr != nil {
 						seterr(inerr)
 						return
 					}
-					if inerr = reftree.CompareTipIndexes(treeV.Tree); err != nil {
+					if inerr = reftree.CompareTipIndexes(treeV.Tree); inerr != nil {
 						seterr(inerr)
 						return
 					}
